@@ -60,18 +60,28 @@ def real_event_nd(ev, max_order=8):
 
 _REUSED = {}   # max_order -> (estimator object, history of (first_method, events) it has already served)
 _CALLS = [0]
+_MODE_RNG = __import__("random").Random(20260930)   # which calls re-use an object / come after a failed call: independent
+                                                    # of the case generator, so no modular pattern can hide a class
 
 
-def real_all(evs, max_order, mode="auto"):
+def real_all(evs, max_order, mode="auto", corr_first=None, do_poison=None):
     """mode 'fresh': new estimator objects; 'reuse': one long-lived object per max_order serves both public methods
-    (order of the two alternates), so that state leaking from one call into the next shows up; 'auto' alternates."""
+    (order of the two varies), so that state leaking from one call into the next shows up; before some re-use calls the
+    object first serves a call that fails midway; 'auto' draws all of this at random."""
     from sparkx.MultiParticlePtCorrelations import MultiParticlePtCorrelations
     _CALLS[0] += 1
-    reuse = mode == "reuse" or (mode == "auto" and _CALLS[0] % 2 == 0)
-    corr_first = _CALLS[0] % 4 < 2
+    reuse = mode == "reuse" or (mode == "auto" and _MODE_RNG.random() < 0.5)
+    if corr_first is None:
+        corr_first = _MODE_RNG.random() < 0.5
     if reuse:
         m1, hist = _REUSED.setdefault(max_order, (MultiParticlePtCorrelations(max_order=max_order), []))
         m2 = m1
+        if do_poison is None:
+            do_poison = _MODE_RNG.random() < 0.25
+        if do_poison and evs:
+            # a call that fails midway (an event holding something that is not a particle) must leave no trace in the object
+            poison(m1, evs, corr_first)
+            hist.append(("poison-" + ("correlations" if corr_first else "cumulants"), evs))
         hist.append(("correlations-then-cumulants" if corr_first else "cumulants-then-correlations", evs))
     else:
         m1 = MultiParticlePtCorrelations(max_order=max_order)
@@ -84,6 +94,19 @@ def real_all(evs, max_order, mode="auto"):
             k = m2.mean_pT_cumulants([_particles(ev) for ev in evs], compute_error=False)
             c = m1.mean_pT_correlations([_particles(ev) for ev in evs], compute_error=False)
     return [float(x) for x in c], [float(x) for x in k]
+
+
+def poison(m, evs, corr_first):
+    """one call on `m` that raises after some events have been processed: the sample's events followed by a non-event"""
+    # other particles than the valid call that follows (the same events twice would leave every average unchanged)
+    other = [[(w, 3.0 * pt + 1.0) for w, pt in ev] for ev in evs]
+    bad = [_particles(ev) for ev in other]
+    bad.append(_particles(other[-1]) + [None])    # fails inside the last event, after everything else was accumulated
+    try:
+        with np.errstate(all="ignore"):
+            (m.mean_pT_correlations if corr_first else m.mean_pT_cumulants)(bad, compute_error=False)
+    except Exception:
+        pass
 
 
 # ------------------------------------------------------------------ generators
@@ -144,9 +167,9 @@ def exact_cumulants(C):
     return [L[k] * math.factorial(k) for k in range(1, K + 1)]
 
 
-def oracle_check(evs, max_order, rel=1e-6, mode="fresh"):
+def oracle_check(evs, max_order, rel=1e-6, mode="fresh", corr_first=None, do_poison=None):
     """Returns None or (key, what, detail) when the *real code* disagrees with the definition."""
-    c, kap = real_all(evs, max_order, mode)
+    c, kap = real_all(evs, max_order, mode, corr_first, do_poison)
     Cex = []
     for k in range(1, max_order + 1):
         n, d = exact_corr(evs, k)
@@ -343,9 +366,14 @@ def replay(ctx, path):
     if "history" in inp:
         _REUSED.pop(inp["max_order"], None)
         r = None
+        from sparkx.MultiParticlePtCorrelations import MultiParticlePtCorrelations
         for h in inp["history"]:
-            _CALLS[0] = 3 if h["order"].startswith("correlations") else 1   # next call: reuse with that order
-            r = oracle_check(conv(h["events"]), inp["max_order"], mode="reuse") or r
+            if h["order"].startswith("poison"):
+                m1, _ = _REUSED.setdefault(inp["max_order"], (MultiParticlePtCorrelations(max_order=inp["max_order"]), []))
+                poison(m1, conv(h["events"]), h["order"].endswith("correlations"))
+                continue
+            r = oracle_check(conv(h["events"]), inp["max_order"], mode="reuse",
+                             corr_first=h["order"].startswith("correlations"), do_poison=False) or r
     else:
         r = oracle_check(conv(inp["events"]), inp["max_order"])
     if r:
